@@ -156,7 +156,7 @@ pub fn run_c11(run: &mut Run) -> anyhow::Result<()> {
     let n_net = if run.quick() { 220 } else { 8000 };
     for case in 0..n_net {
         let mask = case % 16;
-        let pick = |rng: &mut Rng, on: bool| if on { Some(*rng.pick(&[200u64, 300, 500, 800, 1200])) } else { None };
+        let pick = |rng: &mut Rng, on: bool| if on { Some(*rng.pick(&[0u64, 200, 300, 500, 800, 1200, 0])) } else { None };
         let out_a = pick(&mut rng, mask & 1 != 0);
         let in_a = pick(&mut rng, mask & 2 != 0);
         let out_b = pick(&mut rng, mask & 4 != 0);
@@ -355,6 +355,35 @@ pub fn run_c11(run: &mut Run) -> anyhow::Result<()> {
             if status != 408 || el < deadline_ms || el > deadline_ms + 5 || !dropped_after || finished {
                 run.oracle_fail(json!({"kind": "a typed handler of a generated server is not dropped at the deadline", "status": status, "elapsed_ms": el, "deadline_ms": deadline_ms, "handler_needs_ms": need_ms,
                     "handler_future_dropped_at_deadline": dropped_after, "handler_ran_to_completion_later": finished}));
+            }
+        }
+    }
+    // ---- (f) the timeout header set on a typed Request travels with a GENERATED client's call
+    {
+        use crate::codegen::{beta, Instr, Msg, H};
+        let rt = paused_rt();
+        for case in 0..(if run.quick() { 4 } else { 80 }) {
+            let deadline_ms = *rng.pick(&[150u64, 400, 900]);
+            let need_ms = deadline_ms + 300 + rng.below(1000);
+            let h = H::default();
+            let h2 = h.clone();
+            let (outcome, el): (String, u64) = rt.block_on(async move {
+                let server = beta::beta_server::BetaServer::new(h2.clone());
+                let svc = anemo::verif::middleware::inbound_timeout(server, None);
+                let mut client = beta::beta_client::BetaClient::new(svc);
+                let req = Request::new(Msg { id: 9, via: String::new(), instr: Instr::Sleep { ms: need_ms } }).with_timeout(Duration::from_millis(deadline_ms));
+                let t0 = tokio::time::Instant::now();
+                let r = if case % 2 == 0 { client.m_one(req).await } else { client.m_three(req).await };
+                let el = (tokio::time::Instant::now() - t0).as_millis() as u64;
+                (match r {
+                    Ok(_) => "answered".to_string(),
+                    Err(s) => format!("status-{}", s.status().to_u16()),
+                }, el)
+            });
+            run.eval(&format!("typed-client-header case {case}"), true);
+            run.count("typed-client-header", &outcome);
+            if outcome != "status-408" || el < deadline_ms || el > deadline_ms + 5 {
+                run.oracle_fail(json!({"kind": "the timeout header of a typed Request did not bound a generated client's call", "observed": outcome, "elapsed_ms": el, "header_deadline_ms": deadline_ms, "handler_needs_ms": need_ms}));
             }
         }
     }
